@@ -13,8 +13,7 @@
 (*                                                                         *)
 (* One behaviour = the journey of one datagram: it is put together field   *)
 (* by field (the Choose actions), arrives at a listener socket (Receive),  *)
-(* is                                                                      *)
-(* authenticated (Verify) and answered (ServeNtp / EchoReply /             *)
+(* is authenticated (Verify) and answered (ServeNtp / EchoReply /          *)
 (* TracerouteReply), passed on (Forward) or ignored (Drop); the reply of   *)
 (* an NTP exchange travels back through the network (Relay, which may      *)
 (* alter it) to the requesting client (VerifyResponse).                    *)
@@ -40,14 +39,20 @@ EndhostPort == 30041
 AuthOptDataLen == 12 + 16      \* metadata (SPI 4, algorithm 1, RSV 1, timestamp/sequence 6) + MAC
 
 (***************************************************************************)
+(* A deviation of the code, named: server_scion.go reverses the path but   *)
+(* keeps the request's path type in the reply's header, although           *)
+(* Path.Reverse() of a one-hop path is a standard SCION path.              *)
+(*   KeepPathType = TRUE   the code as it is  (ScionAuth_faithful*.cfg)    *)
+(*   KeepPathType = FALSE  repaired: PathType = Path.Type() after Reverse  *)
+(***************************************************************************)
+CONSTANT KeepPathType
+ASSUME KeepPathType \in BOOLEAN
+
+(***************************************************************************)
 (* Deliberately wrong variants of the implementation, used by the          *)
 (* ScionAuth_f_*.cfg configurations to show that the property section      *)
 (* rejects them ("none" is the code as it is).                             *)
 (***************************************************************************)
-CONSTANT KeepPathType   \* TRUE: as server_scion.go does it -- the reply's header keeps the request's
-                        \* path type although Path.Reverse() of a one-hop path is a standard SCION path
-                        \* (the repaired behaviour sets PathType = Path.Type() after reversing)
-ASSUME KeepPathType \in BOOLEAN
 CONSTANT Fault
 Faults == {"none", "srvIgnoreMac", "cliIgnoreMac", "replySpiClient", "replyNoAuth", "replyMacShort",
            "noPortSwap", "noAddrSwap", "noReverse", "replyToSrc", "fwdOnSrvPort", "fwdBackToEh", "fwdPayload",
@@ -184,7 +189,8 @@ Fetcher       == mode = "server"
 Key           == "k0"       \* the host-to-host key both sides derive (USE_MOCK_KEYS: all zero)
 
 Blank == [ul |-> "srv", l4 |-> "udp", sia |-> "iaC", dia |-> "iaS", sh |-> "C", dh |-> "S", sfam |-> 4, dfam |-> 4,
-          sp |-> "cp", dp |-> "srv", path |-> EmptyPath, ptype |-> "empty", pl |-> "ntp", hdr |-> "h0", ptok |-> "p0", mut |-> "m0", auth |-> NoAuth,
+          sp |-> "cp", dp |-> "srv", path |-> EmptyPath, ptype |-> "empty", pl |-> "ntp",
+          hdr |-> "h0", ptok |-> "p0", mut |-> "m0", auth |-> NoAuth,
           ak |-> "absent", pl0 |-> "ntp"]  \* bookkeeping only: what was done to the authenticator, payload as built
 
 Init ==
